@@ -51,6 +51,7 @@ import (
 	mosnhttp "mosn.io/mosn/pkg/protocol/http"
 	"mosn.io/mosn/pkg/types"
 	"mosn.io/mosn/pkg/verifrt/c09"
+	"mosn.io/mosn/pkg/verifrt/vreport"
 	"mosn.io/mosn/pkg/verifrt/vfake"
 	"mosn.io/pkg/buffer"
 	"mosn.io/pkg/variable"
@@ -159,6 +160,16 @@ func (c09HTTP) SelfDeadlock(stack string) (class, detail string) {
 		return c09DLCloseClass, c09DLCloseDetail
 	}
 	return "", ""
+}
+
+// LimitEvents (c09.RuntimeLimits): max_connections of the cluster's live resource manager is changed at
+// runtime by a cluster update, anywhere in a history (this pool reads the limit at every lease, like
+// the ping-pong pool): quick <= 2 changes per history to 1 or 2, thorough <= 3 changes to 0, 1 or 2.
+func (c09HTTP) LimitEvents() (int, []uint32) {
+	if vreport.Thorough() {
+		return 3, []uint32{0, 1, 2}
+	}
+	return 2, []uint32{1, 2}
 }
 
 func TestVerifC09HTTP1(t *testing.T) {
